@@ -20,7 +20,7 @@ ASSUMPTIONS = ["a conforming unit answers QUERY NEXT DEVICE TYPE in strictly asc
                "when a stream is exhausted the last answer repeats for ever (never-ending unit)"]
 EXHAUSTIVE = {"quick": False, "thorough": False}
 REQUIRED_ANCHORS = {"all": ["dt_lists_checked", "group_sets_checked", "setgroups_checked", "streams_checked",
-                            "streams_must_raise", "streams_conforming", "interleaved_pairs"]}
+                            "streams_must_raise", "streams_conforming", "interleaved_pairs", "abandoned_sequences"]}
 SHARD_TIMEOUT = {"quick": 600, "thorough": 3000}
 
 ALPHABET = ["none", "garbled", 0, 1, 6, "6b", 254, 255]
@@ -69,8 +69,9 @@ def run_interleaved(desc, seed, res):
     def mk_qdt(rr):
         ta, t, o = units(rr)
         return Bus([t, o], bound=BOUND), QueryDeviceTypes(address.GearShort(ta)), lambda: (sorted(t.groups),)
-    pairs.differential(res, "C08", rng(seed, "C08", "interleaved"), {"SetGroups": mk_set, "QueryGroups": mk_qg, "QueryDeviceTypes": mk_qdt},
-                       desc["n"])
+    makers = {"SetGroups": mk_set, "QueryGroups": mk_qg, "QueryDeviceTypes": mk_qdt}
+    pairs.differential(res, "C08", rng(seed, "C08", "interleaved"), makers, desc["n"])
+    pairs.abandon(res, "C08", rng(seed, "C08", "abandon"), makers, desc["n"])
 
 
 # ----------------------------------------------------------------------------- streams
